@@ -48,6 +48,31 @@ theorem order_at_most_once_partial (hok : ProofsObs.runOk (init clients cbs emit
     (h : Hid) : (callUids h (run (init clients cbs emit) sched).hist).Pairwise (· < ·) :=
   ProofsObs.order_at_most_once_partial clients cbs emit sched hok hone h
 
+/-- the same with a hypothesis on the PROGRAM instead of on the run: `start()` occurs in the script of at most one
+    client thread `c` (any number of times, and callbacks may call it too - every `start()` after the first finds the
+    observer started and raises RuntimeError, defect D20) -/
+theorem order_at_most_once_single_starter_partial (hok : ProofsObs.runOk (init clients cbs emit) sched = true) (c : Nat)
+    (hc : ∀ (i : Nat) (ops : List Op), clients[i]? = some ops → Op.start ∈ ops → i = c)
+    (h : Hid) : (callUids h (run (init clients cbs emit) sched).hist).Pairwise (· < ·) :=
+  ProofsObs.order_at_most_once_partial clients cbs emit sched hok
+    (ProofsObs.count_of_oneD (ProofsObs.oneD_of_single_starter clients cbs emit sched c hc hok)) h
+
+/-- non-vacuity: a client that calls `start()` twice and a callback that calls it once more; one dispatcher -/
+example :
+    let clients : List (List Op) := [[.schedule 0 0 0, .start, .start, .stop], [.join]]
+    let s0 := init clients [(0, [[.start]])] [(0, [1, 2])]
+    let sched := [0, 0, 0, 2, 2, 3, 3, 3, 3, 2, 3, 3, 3, 3, 0, 0, 0, 0, 2, 3, 0, 0, 1, 1, 3, 3, 1]
+    ProofsObs.runOk s0 sched = true ∧
+      (∀ (i : Nat) (ops : List Op), clients[i]? = some ops → Op.start ∈ ops → i = 0) ∧
+      ((run s0 sched).threads.filter (fun t => t.kind == .dispatcher)).length = 1 ∧
+      callUids 0 (run s0 sched).hist = [1, 2] := by
+  refine ⟨by decide +kernel, ?_, by decide +kernel, by decide +kernel⟩
+  intro i ops hi hm
+  match i, hi with
+  | 0, _ => rfl
+  | 1, hi => simp at hi; subst hi; simp at hm
+  | n + 2, hi => simp at hi
+
 /-- the dispatch of an entry starts from exactly the handlers registered for its watch at that moment -/
 theorem dispatch_copy (p q : List Obs) (u : Nat) (w : Wid) (hs : List Hid)
     (hh : (run (init clients cbs emit) sched).hist = p ++ .dispatch u w hs :: q) (h : Hid) :
